@@ -17,7 +17,7 @@ from ..flow import Flow
 
 COL = "typhon/collocations/collocator.py"
 FILESET = "typhon/files/fileset.py"
-EXPECT = {"C05.drain": 3, "C05.flush": 4, "C05.crash": 1, "C05.split": 3, "C05.pairing": 2, "C05.naming": 3}
+EXPECT = {"C05.drain": 3, "C05.flush": 4, "C05.crash": 1, "C05.split": 4, "C05.pairing": 2, "C05.naming": 3}
 
 
 def rule_drain(ctx):
@@ -175,6 +175,14 @@ def rule_split(ctx):
         raise AnalysisError("collocate_filesets: number of chunks %s not understood" % pr)
     chv = sp_
     pr = {"processes is None": pr[0], "processes given": pr[1]}
+    # no match at all: the number of processes becomes min(.., 0) = 0 and array_split into 0 sections raises - answer with nothing before
+    eg = [st_ for st_ in flow.stmts if isinstance(st_, ast.If) and str(norm(st_.test)) in ("not %s" % mname, "len(%s) == 0" % mname, "not len(%s)" % mname)
+          and any(isinstance(x, ast.Return) for x in st_.body)
+          and all(flow.cfg.dominated_by(n_, set(flow.cfg.nodes(st_))) for n_ in flow.cfg.nodes(ch))]
+    ctx.ob("Collocator.collocate_filesets.no_matches", bool(eg), "guards before the split: %s" % ([str(norm(g_.test)) for g_ in eg] or "none"),
+           "`if not matches: return` before np.array_split(matches, min(processes, len(matches))): filesets without files close in time yield nothing "
+           "(ValueError: number sections must be larger than 0)", node=eg[0] if eg else ch, func=f,
+           witness=None if eg else {"filesets": "A files 00:00-02:00, B files 04:00-06:00, max_interval=600", "raises": "ValueError"})
     ctx.ob("Collocator.collocate_filesets.chunks", okc, "%s; processes: %s" % (norm(chv), pr), "np.array_split(all matches, min(processes, len(matches)))", node=ch or f.node, func=f)
     pl = A.get("process_list", [None])[0]
     okp = False
